@@ -635,6 +635,8 @@ PyObject* py_template_match(PyObject* self, PyObject* args) {
     if (!PyArg_ParseTuple(args, "OOOii", &array, &template_, &output, &mode, &just_equality)) return NULL;
     if (!numpy::are_arrays(array, template_, output) ||
         !numpy::equiv_typenums(array, template_, output) ||
+        PyArray_NDIM(array) != PyArray_NDIM(template_) ||
+        !numpy::same_shape(output, array) ||
         !PyArray_ISCARRAY(output)) {
         PyErr_SetString(PyExc_RuntimeError,TypeErrorMsg);
         return NULL;
@@ -685,6 +687,8 @@ PyObject* py_find2d(PyObject* self, PyObject* args) {
     PyArrayObject* output;
     if (!PyArg_ParseTuple(args,"OOO", &array, &target, &output)) return NULL;
     if (!numpy::are_arrays(array, target, output) ||
+            PyArray_NDIM(array) != 2 ||
+            PyArray_NDIM(target) != 2 ||
             !numpy::same_shape(output, array) ||
             !numpy::equiv_typenums(array, target) ||
             !numpy::check_type<bool>(output) ||
